@@ -34,7 +34,7 @@ def gen(rng, tier):
             cons = False
         else:
             cg = G.consistent_graph(rng, max_nodes=8)
-            r, _ = G.erase(rng, cg, wrong_outputs=False)
+            r, _ = G.erase(rng, cg, wrong_outputs=(rng.random() < 0.5))
             cons = True
         cases.append({"kind": "rand", "recipe": V.enc_recipe(r), "twice": rng.random() < 0.5, "consistent": cons})
     # nodes that were built from ONE types dictionary object (the constructors keep a dict-form argument as it is): inference
@@ -270,6 +270,17 @@ def run(c):
                     # only nodes that are the target of a processed edge get types; an Input is typed already
                     fail = f"infer_types() returned normally but reachable node {name} still has an undefined type"
                     break
+    if not fail and c.get("consistent") and raised[0]:
+        fail = "infer_types() raised on a type-consistent graph whose nodes are all reachable (erased annotations only)"
+    if not fail and c.get("consistent") and not raised[0]:
+        try:
+            with quiet():
+                ok = g._check_types()
+            if ok is not True:
+                fail = f"after infer_types() on a type-consistent graph (erased / wrong Output annotations only) _check_types() returned {ok!r}"
+        except BaseException as e:  # noqa: BLE001
+            fail = (f"after infer_types() on a type-consistent graph (erased / wrong Output annotations only) the type check still "
+                    f"fails: {type(e).__name__}: {e}")
     if not fail and times == 2 and not raised[0]:
         if raised[1] or t_after[1] != t_after[0]:
             fail = "a second infer_types() changed types (or raised) after a successful first one"
